@@ -196,7 +196,10 @@ pub fn main(args: &[String]) {
                         } else if !inside(it) && !contains_inside && !parent_inside {
                             match oi {
                                 Some(oi) => {
-                                    let class = if it.fm_end < it.stmt_end && it.fm_end <= b && b < it.stmt_end { "outside-endquirk" } else { "outside" };
+                                    // the end-position quirk (listed): full_moon reports an end before the closing bracket, the range ends in between and the
+                                    // binary treats the statement as inside; the statements that contain such a statement change with it
+                                    let quirk = |x: &Item| x.fm_end < x.stmt_end && x.fm_end <= b && b < x.stmt_end;
+                                    let class = if quirk(it) || stm.iter().any(|x| quirk(x) && x.start >= a && it.start <= x.start && x.end <= it.end) { "outside-endquirk" } else { "outside" };
                                     let (exp, obs) = (slice(&src, it.start, it.end), slice(&o, oi.start, oi.end));
                                     if pos_only { writeln!(out, "POS {} {} {} {} {} {} {} {} {}", rid, it.path, a, b, it.start, it.stmt_end, it.fm_end, class, (exp == obs) as u8).unwrap() }
                                     else { writeln!(out, "NODE {} {} stmt {} {} {}", rid, it.path, class, hex(exp.as_bytes()), hex(obs.as_bytes())).unwrap() }
